@@ -6,6 +6,10 @@ package main
 //             own goroutines has no recover and is observed as the child's exit status.
 //   frames  - RLPx frames from the real writer, then bit flips / truncation into rlpxFrameRW.ReadMsg
 //   packets - discovery packets from the real encoder, then corruption into decodePacket
+//   base    - hostile base-protocol (devp2p) messages: Peer.handle / readProtocolHandshake directly, a Peer's run loop
+//             over a pipe, the real Server over RLPx on loopback with an honest peer that must stay served (base.go)
+//   peers   - one node, an honest peer ahead of it, a misbehaving peer, an idle honest peer: the downloader synchronises
+//             with the honest one while the other interferes (peers.go)
 import (
 	"bufio"
 	"bytes"
@@ -23,6 +27,8 @@ func main() {
 	Main(map[string]Runner{
 		"handler": runHandlerParent, "handler-child": runHandlerChild,
 		"frames": runFrames, "packets": runPackets, "session": runSession,
+		"base": runBaseParent, "base-child": runBaseChild,
+		"peers": runPeersParent, "peers-child": runPeersChild,
 	})
 }
 
